@@ -38,6 +38,31 @@ def load_corpus():
     return out
 
 
+def replay_cases(path):
+    data = json.loads(Path(path).read_text())
+    found = []
+
+    def walk(x):
+        if isinstance(x, dict):
+            if "backends" in x and "op" in x:
+                x.setdefault("mixer", None)
+                found.append(x)
+            else:
+                for v in x.values():
+                    walk(v)
+        elif isinstance(x, list):
+            for v in x:
+                walk(v)
+
+    walk(data.get("case"))
+    walk(data.get("correspondence_failures"))
+    uniq = []
+    for c in found:
+        if c not in uniq:
+            uniq.append(c)
+    return uniq
+
+
 def run_cases(chk, cases, label, old_model=False):
     """Run implementation + monitors on each case, then the model inside Coq on all of them."""
     import c09_emit as E
@@ -293,6 +318,12 @@ def run(chk):
     import c09_impl as I  # noqa: F401
 
     chk.search_hook = search_hook_factory(chk)
+    if chk.replay:  # ./check C09 --replay replays/C09-<hash>.json : only the recorded case(s)
+        cases = replay_cases(chk.replay)
+        chk.dist("replayed", len(cases))
+        chk.obligation("corr:routing", "correspondence", run_cases(chk, cases, "replay"))
+        M.finish(chk)
+        return
     cases = load_corpus()
     chk.dist("corpus", len(cases))
     cases += G.sweep_cases()
